@@ -2,7 +2,9 @@
 """C06 / C07 — LRUCache and LFUCache: correspondence with Model/Cache.lean + independent stepwise oracle"""
 import random
 
-from ..core import Case, err_name, call_with_alarm, Timeout
+from ..core import Case, err_name, call_with_alarm, Timeout, dec_val, enc_val
+
+_ABSENT = object()
 from ..seqcheck import SeqProp
 
 VIEW_OPS = ("values", "items", "eq", "popitem", "clear", "has")
@@ -56,7 +58,7 @@ class CacheProp(SeqProp):
             vcount += 1
             if r < 0.32:
                 # values are re-used on purpose: storing the identical object again must still count as a use
-                ops.append(f"set {k} {rng.choice([1, 2, vcount]) if rng.random() < 0.6 else vcount}")
+                ops.append(f"set {k} {rng.choice([0, 1, 2, 5 + vcount]) if rng.random() < 0.6 else 5 + vcount}")
             elif r < 0.52:
                 ops.append(f"get {k}")
             elif r < 0.60:
@@ -69,15 +71,15 @@ class CacheProp(SeqProp):
                 if o in ("getd", "pop"):
                     ops.append(f"{o} {k}")
                 elif o == "setdefault":
-                    ops.append(f"setdefault {k} {vcount}")
+                    ops.append(f"setdefault {k} {rng.choice([0, 5 + vcount])}")
                 elif o == "update":
                     m = rng.randint(0, 3)
-                    ops.append("update" + "".join(f" {rng.randrange(nkeys)} {vcount * 10 + j}" for j in range(m)))
+                    ops.append("update" + "".join(f" {rng.randrange(nkeys)} {rng.choice([0, vcount * 10 + j])}" for j in range(m)))
                 elif o == "eq":
                     # often an equal dict: filled in at run time is impossible (ops are fixed), so random small dicts
                     m = rng.randint(0, 3)
                     ks = rng.sample(range(nkeys), min(m, nkeys))
-                    ops.append("eq" + "".join(f" {kk} {rng.randint(1, 3)}" for kk in ks))
+                    ops.append("eq" + "".join(f" {kk} {rng.randint(0, 2)}" for kk in ks))
                 else:
                     ops.append(o)
         return Case(ops, {})
@@ -127,6 +129,7 @@ class CacheProp(SeqProp):
 
         agree = all(id(nd) in ids and key_of(nd) == k for k, nd in c.cache.items()) and len(c.cache) == len(nodes)
         s = lambda xs: ",".join(map(str, xs))
+        vs = [enc_val(v) for v in vs]
         out = f"K:{s(ks)} V:{s(vs)} "
         if cs is not None:
             out += f"C:{s(cs)} "
@@ -163,9 +166,9 @@ class CacheProp(SeqProp):
         if o == "new":
             return ("new", self.make(int(w[1])))
         if o == "set":
-            c[int(w[1])] = int(w[2]); return "ok"
+            c[int(w[1])] = dec_val(int(w[2])); return "ok"
         if o == "get":
-            return f"ret {c[int(w[1])]}"
+            return f"ret {enc_val(c[int(w[1])])}"
         if o == "del":
             del c[int(w[1])]; return "ok"
         if o == "has":
@@ -177,25 +180,30 @@ class CacheProp(SeqProp):
         if o == "keys":
             return f"list {s(list(c.keys()))}"
         if o == "values":
-            return f"list {s(list(c.values()))}"
+            return f"list {s(enc_val(v) for v in c.values())}"
         if o == "items":
-            return "pairs " + ",".join(f"{k}:{v}" for k, v in c.items())
+            return "pairs " + ",".join(f"{k}:{enc_val(v)}" for k, v in c.items())
         if o == "getd":
-            v = c.get(int(w[1])); return f"ret {'-' if v is None else v}"
+            # a stored None must not be taken for "absent"
+            v = c.get(int(w[1]), _ABSENT)
+            return f"ret {'-' if v is _ABSENT else enc_val(v)}"
         if o == "pop":
-            return f"ret {c.pop(int(w[1]))}"
+            return f"ret {enc_val(c.pop(int(w[1])))}"
         if o == "popitem":
-            k, v = c.popitem(); return f"pairs {k}:{v}"
+            k, v = c.popitem(); return f"pairs {k}:{enc_val(v)}"
         if o == "clear":
             c.clear(); return "ok"
         if o == "update":
             a = [int(x) for x in w[1:]]
-            c.update(list(zip(a[0::2], a[1::2]))); return "ok"
+            c.update(list(zip(a[0::2], map(dec_val, a[1::2])))); return "ok"
         if o == "setdefault":
-            return f"ret {c.setdefault(int(w[1]), int(w[2]))}"
+            return f"ret {enc_val(c.setdefault(int(w[1]), dec_val(int(w[2]))))}"
         if o == "eq":
             a = [int(x) for x in w[1:]]
-            return f"ret {1 if c == dict(zip(a[0::2], a[1::2])) else 0}"
+            other = dict(zip(a[0::2], map(dec_val, a[1::2])))
+            # one comparison only (a comparison is a use in the LFU cache): == and != alternate
+            r = (c == other) if len(other) % 2 else not (c != other)
+            return f"ret {1 if r else 0}"
         return "bad-op"
 
     # ---- oracle --------------------------------------------------------------------------------------------------------
